@@ -28,6 +28,9 @@ type run struct {
 	model     map[string][]byte
 	base      int
 	recreated bool
+	dirty     bool      // uncommitted mutations on the current trie
+	shadow    data.Trie // a clean handle left behind by a Recreate: it must keep its committed state
+	shadowIdx int
 	commits   []commitRec
 	maxLevel  uint
 	cache     int
@@ -113,6 +116,7 @@ func (r *run) abandon(key []byte, op string) {
 		}
 	}
 	r.c.Probe("trie_abandoned_after_failed_mutation")
+	r.dirty = false
 	nt, err := r.env.NewTrie(r.maxLevel)
 	if err != nil {
 		r.c.HarnessErr("NewTrie: %v", err)
@@ -204,7 +208,30 @@ func execute(c *simkit.Ctx) bool {
 	return false
 }
 
+// checkShadow: a clean trie handle that a Recreate left behind must be unaffected by updates on the recreated trie.
+func (r *run) checkShadow(site string) {
+	if r.shadow == nil || r.c.Failed(r.c.Plan.Property) {
+		return
+	}
+	rec := r.commits[r.shadowIdx]
+	rh, err := r.shadow.RootHash()
+	if err != nil || !bytes.Equal(rh, rec.root) {
+		r.c.Violate("C03", "recreate-shares-state", site, "a trie handle committed at root %x and not touched since reports root %x (err %v) after updates on a trie recreated from storage", rec.root, rh, err)
+		return
+	}
+	for _, k := range r.pool {
+		got, err := r.shadow.Get(k)
+		want := rec.model[string(k)]
+		if err != nil || (!bytes.Equal(got, want) && !(len(got) == 0 && len(want) == 0)) {
+			r.c.Violate("C03", "recreate-shares-state", site, "a trie handle committed at root %x and not touched since reads key %x as %x (err %v), committed value %x, after updates on a trie recreated from storage", rec.root, k, got, err, want)
+			return
+		}
+	}
+	r.c.Probe("shadow_handle_checked")
+}
+
 func (r *run) finalCheck() {
+	r.checkShadow("final")
 	for _, k := range r.pool {
 		got, err := r.tr.Get(k)
 		if err != nil {
@@ -261,6 +288,7 @@ func (r *run) step(st *simkit.Step, firedBefore int, hashEach bool) {
 			r.model[string(key)] = newVal
 		}
 		mutated = true
+		r.dirty = true
 		if r.recreated {
 			r.nMutAfterRecreate++
 		}
@@ -291,9 +319,11 @@ func (r *run) step(st *simkit.Step, firedBefore int, hashEach bool) {
 		r.commits = append(r.commits, commitRec{root: rh, model: copyModel(r.model)})
 		r.base = len(r.commits) - 1
 		r.nCommit++
+		r.dirty = false
 		c.Eventf("%d commit -> root %x (%d keys)", c.CurStep, rh, len(r.model))
 		c.FPBytes(rh)
 		r.checkRoot("Commit")
+		r.checkShadow("Commit")
 	case "recreate":
 		if len(r.commits) == 0 {
 			return
@@ -313,7 +343,12 @@ func (r *run) step(st *simkit.Step, firedBefore int, hashEach bool) {
 			c.Violate("C03", "recreated-root-differs", "Recreate", "Recreate(%x) yields a trie whose RootHash is %x", rec.root, rh)
 			return
 		}
-		r.tr, r.model, r.base, r.recreated = nt, copyModel(rec.model), j, true
+		if !r.dirty && r.base >= 0 {
+			// the handle we leave behind is clean and stays alive: whatever happens to the recreated trie, it must
+			// keep the root and the contents of its commit ("both tries stay in use")
+			r.shadow, r.shadowIdx = r.tr, r.base
+		}
+		r.tr, r.model, r.base, r.recreated, r.dirty = nt, copyModel(rec.model), j, true, false
 		c.Probe("recreate_older_root")
 	case "leaves":
 		if len(r.commits) == 0 {
@@ -367,6 +402,7 @@ func (r *run) step(st *simkit.Step, firedBefore int, hashEach bool) {
 			c.HarnessErr("NewTrie: %v", err)
 			return
 		}
+		r.shadow, r.dirty = nil, false
 		c.Eventf("%d restart (base #%d)", c.CurStep, r.base)
 		c.Fault("close_reopen")
 		r.model = map[string][]byte{}
